@@ -34,11 +34,29 @@ DOCS = [
     "mutation { ...MF2 } fragment MF2 on Mutation { inc set(v: \"s\") { id name } other { b } }",
     "mutation { ... on Mutation { set(v: \"s\") { id name } other { b tags } } }",
     "mutation { ... { inc other { b } must } }",
+    "mutation { other { b tags strict } inc }",
+    "mutation { set(v: \"x\") { name id a } inc other { strict b } }",
 ]
+# sibling fields awaited in place or gathered, per field: default (all gathered) and the two alternating assignments
+CONFIGS = ["default", "mixed-even", "mixed-odd"]
+
+
+def engine_for(cfg):
+    schema = seeds.K
+    if cfg == "default":
+        return explore.engine_for("K", schema)
+    par = 0 if cfg == "mixed-even" else 1
+    per, n = {}, 0
+    for td in schema.types:
+        if td.kind == "OBJECT":
+            for f in td.fields:
+                n += 1
+                per["%s.%s" % (td.name, f.name)] = {"parent_concurrently": n % 2 == par, "list_concurrently": n % 3 != par}
+    return explore.engine_for(("C09", cfg), schema, typecfg={"resolver_kwargs": per})
 
 
 def shards(tier, seed):
-    return [(di, tier) for di in range(len(DOCS))]
+    return [(di, tier, cfg) for di in range(len(DOCS)) for cfg in CONFIGS]
 
 
 def placements(schema, located, variables, root, overrides):
@@ -69,9 +87,10 @@ def placements(schema, located, variables, root, overrides):
 
 
 def run_shard(item):
-    di, tier = item
+    di, tier = item[0], item[1]
+    cfg = item[2] if len(item) > 2 else "default"
     schema = seeds.K
-    engine = explore.engine_for("K", schema)
+    engine = engine_for(cfg)
     out = {"counts": {"schedules": 0, "choice_points": 0, "cases": 0, "nontrivial": 0}, "tables": {"roots": {}}, "sets": {},
            "samples": [], "violations": [], "machinery": [], "caps": []}
     text, located = doc.roundtrip(doc.parse(DOCS[di]))
@@ -165,9 +184,10 @@ def run_shard(item):
                 clause, choices, got = state["viol"]
                 out["violations"].append({
                     "signature": "%s|%s" % (clause, "fault" if faults else "plain"),
-                    "summary": "%s: %s variables=%r faults=%r schedule=%r -> %r; events=%r" % (
-                        clause, text, variables, {str(k): v for k, v in faults.items()}, choices, got, scn.events[:12]),
-                    "replay": {"doc": di, "variables": variables, "faults": [[list(p), f] for p, f in faults.items()], "choices": choices}})
+                    "summary": "%s: %s [%s] variables=%r faults=%r schedule=%r -> %r; events=%r" % (
+                        clause, text, cfg, variables, {str(k): v for k, v in faults.items()}, choices, got, scn.events[:12]),
+                    "replay": {"doc": di, "config": cfg, "variables": variables, "faults": [[list(p), f] for p, f in faults.items()],
+                               "choices": choices}})
     out["samples"].append({"document": text, "root_keys": root_keys, "failure_placements": out["counts"]["cases"]})
     return out
 
@@ -182,7 +202,8 @@ def finish(agg, tier):
         "distinct_nontrivial": c.get("nontrivial", 0),
         "rule": "states = complete schedules of the real engine for %d mutation documents x every failure placement (none; raise / null "
                 "at each root field; raise / null at each nested field) : all completion orders of the suspended resolvers plus <= %d "
-                "mid-run injection(s). non-trivial = schedules deviating from FIFO. Oracle: event log ordered by root key, never two "
+                "mid-run injection(s), under 3 concurrency configurations (all siblings gathered; the two alternating per-field assignments "
+                "of parent_concurrently / list_concurrently). non-trivial = schedules deviating from FIFO. Oracle: event log ordered by root key, never two "
                 "roots pending together, response keys in document order, data and errors equal to the reference"
                 % (len(DOCS), MAX_I[tier]),
         "exhaustive": True,
@@ -191,5 +212,5 @@ def finish(agg, tier):
 
 def replay(rec):
     r = rec["replay"]
-    out = run_shard((r["doc"], "quick"))
+    out = run_shard((r["doc"], "quick", r.get("config", "default")))
     return out["violations"]
